@@ -306,6 +306,22 @@ func (t *Table) LeftOptionalJoin(t2 *Table) error {
 		return nil
 	}
 	if disjointBindings(t.mbs, t2.mbs) {
+		if len(t2.Data) == 0 {
+			// Nothing to join with. A left join keeps every left row and
+			// leaves the new bindings of the right table empty.
+			t.mu.Lock()
+			defer t.mu.Unlock()
+			ubs := unionBindings(t.mbs, t2.mbs)
+			for i, r := range t.Data {
+				t.Data[i] = extendRow(r, ubs)
+			}
+			t.mbs = ubs
+			t.AvailableBindings = nil
+			for k := range ubs {
+				t.AvailableBindings = append(t.AvailableBindings, k)
+			}
+			return nil
+		}
 		// The tables has nothing in commnon. Hence, we are going to treat it
 		// as a regular cross product.
 		return t.DotProduct(t2)
